@@ -355,7 +355,7 @@ def prop_mono(case):
 
 @st.composite
 def random_unit_cases(draw):
-    n = draw(st.integers(1, 12))
+    n = draw(st.one_of(st.integers(1, 12), st.integers(1, 12), st.integers(60, 200)))  # (also axes longer than any small-case shortcut)
     axis_dtype = draw(st.sampled_from(["float", "float", "float", "int64", "int32"]))
     if axis_dtype == "float":
         x0 = draw(st.floats(-100, 100, allow_nan=False))
@@ -903,10 +903,28 @@ def _run(case, clause):
     from glotaran.optimization.optimize import optimize
 
     scheme, raw, dsw = build_sys(case)
+    had_weight = {lab: "weight" in ds for lab, ds in scheme.data.items()}
     with warnings.catch_warnings():
         warnings.simplefilter("ignore")
         with expect_ok(clause):
             res = optimize(scheme, verbose=False, raise_exception=True)
+        # the caller's datasets are the caller's: a weight derived from the model's items must not be written onto them (the same
+        # dataset object may be used again, under another label or with another interval)
+        gained = [lab for lab, ds in scheme.data.items() if ("weight" in ds) != had_weight[lab]]
+        check(not gained, clause.rsplit(".", 1)[0] + ".model_weight_written_onto_the_input_dataset", lambda: f"datasets {gained}")
+        # ... and a Result is a value: an unrelated optimisation afterwards (same process, other data, its own penalties) leaves it alone
+        import copy as _copy
+
+        pen_before = _copy.deepcopy(res.additional_penalty)
+        other = _copy.deepcopy(case)
+        other["seed"] = int(other.get("seed", 0)) + 17
+        try:
+            optimize(build_sys(other)[0], verbose=False, raise_exception=True)
+        except Exception:  # noqa: BLE001  (only there to disturb shared state)
+            pass
+        same = len(pen_before) == len(res.additional_penalty) and all(
+            np.array_equal(np.asarray(a, dtype=float), np.asarray(b, dtype=float)) for a, b in zip(pen_before, res.additional_penalty))
+        check(same, clause.rsplit(".", 1)[0] + ".penalty_of_an_earlier_result_changed_by_a_later_optimisation", lambda: f"{pen_before} -> {res.additional_penalty}")
     return res, raw
 
 
